@@ -11,7 +11,8 @@ def engines : List (String × (List String → String)) := [
   ("table", Wpull.Table.handle),
   ("pool", Wpull.Pool.handle),
   ("url", Wpull.Url.handle),
-  ("filter", Wpull.Filter.handle)
+  ("filter", Wpull.Filter.handle),
+  ("warc", Wpull.Warc.handle)
 ]
 
 def handle (line : String) : String :=
